@@ -29,6 +29,7 @@ fn main() {
         Mode::Parent => parent(&args),
         Mode::Child(k) if k == "hist" => child_hist(&args),
         Mode::Child(k) if k == "conc" => child_conc(&args),
+        Mode::Child(k) if k == "rdv" => child_rdv(&args),
         Mode::Child(k) => {
             eprintln!("HARNESS: unknown child kind {k}");
             std::process::exit(2)
@@ -46,8 +47,11 @@ fn parent(args: &Args) {
     let nc = args.get_u64("conc", args.tier.pick(2000, 30000));
     let ends = run::run_children(args, &ChildSpec::new("conc", nc).timeout(60), &mut out);
     run::classify_ends(&ends, &mut out, true);
+    let nr = args.get_u64("rdv", args.tier.pick(64, 1280));
+    let ends = run::run_children(args, &ChildSpec::new("rdv", nr).arg("rounds", args.get_u64("rounds", 20000)).timeout(300), &mut out);
+    run::classify_ends(&ends, &mut out, true);
     let mut extra = Map::new();
-    extra.insert("child_processes".into(), json!(nh + nc));
+    extra.insert("child_processes".into(), json!(nh + nc + nr));
     vlib::sanlayer::run_layers(ID, args, &mut out, &mut extra);
     run::finish(
         Finish {
@@ -540,6 +544,136 @@ fn child_conc(args: &Args) {
     }
     if args.shard < 2 {
         out.sample(json!({"kind": "conc", "history": hist()}));
+    }
+    out.emit();
+}
+
+// ---------------------------------------------------------------------------------------------
+// tight rendezvous stress: two threads perform one scope operation each at (as nearly as a spin
+// rendezvous allows) the same instant - open || open, open || close, close || open, close || close -
+// and then each thread emits and must reach the collector its OWN scope stack selects.
+// Targets check-then-act / lost-update windows that are a few instructions wide (no hook inside).
+fn child_rdv(args: &Args) {
+    use std::sync::atomic::AtomicUsize;
+    let rounds = args.get_u64("rounds", 20000);
+    let mut out = Out::new();
+    let mut rng = Rng::derive(args.seed, 0xC02D, args.shard);
+    let (arcs, ds) = mk_collectors(&mut rng, 3);
+    // half of the processes have a global default (collector 2)
+    let global: Option<usize> = if rng.bool() {
+        dispatch::set_global_default(ds[2].clone()).expect("HARNESS: first set_global_default");
+        Some(2)
+    } else {
+        None
+    };
+    let gen = Arc::new(AtomicUsize::new(0));
+    let fresh = Arc::new(Fresh::new());
+    // per-thread plan: for each round, (op, collector) where op 0 = open, 1 = close, 2 = nothing
+    let plans: Vec<Vec<(u8, usize)>> = (0..2)
+        .map(|t| {
+            let mut depth = 0usize;
+            (0..rounds)
+                .map(|_| {
+                    let op = if depth == 0 {
+                        if rng.chance(3, 4) { 0 } else { 2 }
+                    } else if depth >= 2 {
+                        if rng.chance(3, 4) { 1 } else { 2 }
+                    } else {
+                        [0u8, 1, 1, 0, 2][rng.usize(5)]
+                    };
+                    match op {
+                        0 => depth += 1,
+                        1 => depth -= 1,
+                        _ => {}
+                    }
+                    (op, t) // thread t always installs collector t, so misrouting is visible
+                })
+                .collect()
+        })
+        .collect();
+    let bad: Arc<Mutex<Option<Value>>> = Arc::new(Mutex::new(None));
+    let mut hs = vec![];
+    for t in 0..2usize {
+        let ds = ds.clone();
+        let arcs = arcs.clone();
+        let gen = gen.clone();
+        let plan = plans[t].clone();
+        let bad = bad.clone();
+        let fresh = fresh.clone();
+        hs.push(std::thread::spawn(move || {
+            // one callsite per thread, hit over and over (interest is `always`: all collectors accept)
+            let cs = fresh.take(3, t, Kind::Event).expect("HARNESS: pool");
+            let mut stack: Vec<DefaultGuard> = vec![];
+            let mut judged = 0u64;
+            let mut raced = [0u64; 3];
+            for (round, (op, k)) in plan.iter().enumerate() {
+                // spin rendezvous: both threads leave together
+                let target = (round + 1) * 2;
+                gen.fetch_add(1, Ordering::AcqRel);
+                let mut spins = 0u64;
+                while gen.load(Ordering::Acquire) < target {
+                    std::hint::spin_loop();
+                    spins += 1;
+                    if spins % 1_000_000 == 0 && bad.lock().unwrap().is_some() {
+                        return (judged, raced);
+                    }
+                }
+                match op {
+                    0 => stack.push(dispatch::set_default(&ds[*k])),
+                    1 => drop(stack.pop()),
+                    _ => {}
+                }
+                raced[*op as usize] += 1;
+                // judge: an emission now must reach the collector this thread's own stack selects
+                let id = ((t as u64 + 1) << 40) | round as u64;
+                let _ = (cs.emit)(id);
+                judged += 1;
+                let expect: Option<usize> = if stack.is_empty() { global } else { Some(t) };
+                let mut got: Vec<usize> = vec![];
+                for (i, a) in arcs.iter().enumerate() {
+                    let mut l = a.log.lock().unwrap();
+                    if l.iter().any(|g| matches!(g, Got::Event { id: x, .. } if *x == id)) {
+                        got.push(i);
+                    }
+                    // keep the logs small: drop this thread's own older entries
+                    l.retain(|g| !matches!(g, Got::Event { id: x, .. } if (*x >> 40) == t as u64 + 1 && *x != id));
+                }
+                let want: Vec<usize> = expect.into_iter().collect();
+                if got != want {
+                    let mut b = bad.lock().unwrap();
+                    if b.is_none() {
+                        *b = Some(json!({"thread": t, "round": round, "own_scope_depth": stack.len(), "this_thread_did": (["open", "close", "nothing"][*op as usize]),
+                                         "expected_collector": expect, "received_by": got, "global_default": global}));
+                    }
+                    // keep the rendezvous going so the other thread is not left spinning
+                }
+            }
+            while let Some(g) = stack.pop() {
+                drop(g);
+            }
+            (judged, raced)
+        }));
+    }
+    let mut judged = 0;
+    for h in hs {
+        match h.join() {
+            Ok((j, raced)) => {
+                judged += j;
+                out.count("rdv_opens", raced[0]);
+                out.count("rdv_closes", raced[1]);
+            }
+            Err(p) => out.violation("panic in the scope rendezvous stress", json!({"panic": run::panic_msg(&p), "shard": args.shard})),
+        }
+    }
+    out.evals += judged;
+    out.count("rdv_emissions_judged", judged);
+    out.count("rdv_processes", 1);
+    out.distinct_str(&format!("rdv|global={}|{}", global.is_some(), args.shard % 8));
+    if let Some(w) = bad.lock().unwrap().take() {
+        out.violation(
+            "after two threads opened / closed scopes at the same instant, an emission did not reach the collector its own thread's scope stack selects",
+            json!({"detail": w, "shard": args.shard, "plan_of_the_other_thread_in_that_round": "see child args (deterministic plan from the seed)"}),
+        );
     }
     out.emit();
 }
